@@ -298,9 +298,17 @@ func classCount(res *vkit.Result, l int) {
 
 type CaseMarshal struct {
 	Words []uint64 `json:"words"` // 16
+	// Later: bitmaps marshalled afterwards; every encoding handed out before must still hold its bytes then
+	Later [][]uint64 `json:"later,omitempty"`
 }
 
-func GenMarshal(t *rapid.T) CaseMarshal { return CaseMarshal{Words: genMembers(t, "m")} }
+func GenMarshal(t *rapid.T) CaseMarshal {
+	c := CaseMarshal{Words: genMembers(t, "m")}
+	for i, k := 0, rapid.SampledFrom([]int{0, 0, 1, 2, 3}).Draw(t, "later"); i < k; i++ {
+		c.Later = append(c.Later, genMembers(t, "later"))
+	}
+	return c
+}
 
 func ExecMarshal(c CaseMarshal) *vkit.Result {
 	res := &vkit.Result{}
@@ -351,6 +359,32 @@ func ExecMarshal(c CaseMarshal) *vkit.Result {
 	}
 	if string(keep) != string(enc) {
 		return res.Failf("Unmarshal/mutates-input", "Unmarshal changed its input")
+	}
+	// the encoding belongs to the caller: later Marshal calls (of other bitmaps, of the same one) must leave it alone
+	type kept struct {
+		enc, copy []byte
+		words     []uint64
+	}
+	held := []kept{{enc, keep, c.Words}}
+	for _, w := range c.Later {
+		if len(w) != 16 || len(held) > 8 {
+			continue
+		}
+		e := toBit1024(w).Marshal()
+		held = append(held, kept{e, append([]byte(nil), e...), w})
+	}
+	if len(held) > 1 {
+		_ = b.Marshal()
+		res.Class("encodings-retained-across-later-marshals")
+		for i, h := range held {
+			if string(h.enc) != string(h.copy) {
+				return res.Failf("Marshal/retained", "the %d. encoding handed out by Marshal (%d bytes) changed after later Marshal calls: was %x, is %x", i+1, len(h.copy), h.copy, h.enc)
+			}
+			back := bitmap1024.NewBit1024()
+			if err := back.Unmarshal(h.enc); err != nil || !back.Equal(toBit1024(h.words)) {
+				return res.Failf("Marshal/retained", "the %d. encoding handed out by Marshal no longer decodes to its bitmap after later Marshal calls (err %v)", i+1, err)
+			}
+		}
 	}
 	res.NonTrivial = l > 0
 	return res
